@@ -242,7 +242,9 @@ func c10FaultKinds(quick bool, valueLen int) []fakemc.Fault {
 		out = append(out, fakemc.Fault{Kind: fakemc.FaultStatus, Status: s})
 	}
 	out = append(out, fakemc.Fault{Kind: fakemc.FaultCloseBefore}, fakemc.Fault{Kind: fakemc.FaultCloseAfter})
-	for _, b := range []int{1, 24, 25} {
+	// 1: inside the header; 24: header complete; 25: inside the extras; 28 / 32: extras of a
+	// get / gete reply complete and not one byte of the value; 31: inside a value
+	for _, b := range []int{1, 24, 25, 28, 32} {
 		out = append(out, fakemc.Fault{Kind: fakemc.FaultCloseMid, Bytes: b})
 	}
 	out = append(out, fakemc.Fault{Kind: fakemc.FaultCloseMid, Bytes: 24 + 4 + 3})
